@@ -131,11 +131,13 @@ func runFlushDrain(c *Ctx, r *RuleRun) {
 		r.Undecided("-", "flusher", "", "DB.flushC / DB.closed / the goroutine started by Open not found")
 		return
 	}
-	for _, f := range la.RoleRoots["F"] {
+	loops := flusherLoops(c)
+	for fi, root := range la.RoleRoots["F"] {
+		f := loops[fi]
 		fn := p.FnName(f)
 		// the exit: the block that closes DB.closed; walk back over straight-line predecessors to the loop exits
 		var exitBlock *ssa.BasicBlock
-		eachInstr(f, func(ins ssa.Instruction) {
+		eachInstr(root, func(ins ssa.Instruction) {
 			call, ok := ins.(*ssa.Call)
 			if !ok {
 				return
@@ -150,8 +152,48 @@ func runFlushDrain(c *Ctx, r *RuleRun) {
 			r.Undecided(fn, "exit", p.Pos(f.Pos()), "no close(db.closed) in the flusher")
 			continue
 		}
-		emptyQueue := func(cm Cmp) bool {
+		// the loop lives in a helper: leaving the helper is the exit (the goroutine closes db.closed after the call)
+		reachesExit := func(b *ssa.BasicBlock) bool { return b == exitBlock || reaches(b, exitBlock) }
+		if f != root {
+			reachesExit = func(b *ssa.BasicBlock) bool {
+				for _, x := range f.Blocks {
+					if len(x.Instrs) == 0 {
+						continue
+					}
+					if _, isRet := x.Instrs[len(x.Instrs)-1].(*ssa.Return); isRet && (x == b || reaches(b, x)) {
+						return true
+					}
+				}
+				return false
+			}
+		}
+		var emptyQueue func(cm Cmp) bool
+		emptyQueue = func(cm Cmp) bool {
 			if cm.Y == nil {
+				// `drained()`: a parameterless helper or closure whose answer is that very test
+				if call, isCall := cm.X.(*ssa.Call); isCall && (cm.Op == "true" || cm.Op == "false") {
+					h := call.Call.StaticCallee()
+					if h == nil || len(h.Blocks) == 0 || !p.InModule(h) || len(call.Call.Args) > 1 {
+						return false
+					}
+					all, n := true, 0
+					for _, rc := range returnCases(h) {
+						if len(rc.Vals) != 1 {
+							return false
+						}
+						n++
+						bo, isBo := rc.Vals[0].(*ssa.BinOp)
+						if !isBo {
+							all = false
+							continue
+						}
+						c2 := canonCond(bo, cm.Op == "true")
+						if !(emptyQueue(c2) || emptyQueue(c2.Flip())) {
+							all = false
+						}
+					}
+					return all && n > 0
+				}
 				return false
 			}
 			k, ok := constInt(cm.Y)
@@ -192,7 +234,7 @@ func runFlushDrain(c *Ctx, r *RuleRun) {
 				continue
 			}
 			for si, sb := range b.Succs {
-				if inL[sb] || !reaches(sb, exitBlock) {
+				if inL[sb] || !reachesExit(sb) {
 					continue
 				}
 				n++
@@ -249,6 +291,21 @@ func runFlushDrain(c *Ctx, r *RuleRun) {
 			r.Undecided(fn, "loop exits", p.Pos(f.Pos()), "the flusher's loop exits were not found")
 		}
 	}
+}
+
+// flusherLoops: for every goroutine Open starts, the function that holds its select loop - the goroutine's function
+// itself, or the one helper it hands the loop to (`run() { flushLoop(); close(closed) }`).
+func flusherLoops(c *Ctx) []*ssa.Function {
+	p := c.P
+	var out []*ssa.Function
+	for _, f := range c.Locks().RoleRoots["F"] {
+		if h := p.directHolder(f, func(ins ssa.Instruction) bool { _, ok := ins.(*ssa.Select); return ok }); h != nil {
+			out = append(out, h)
+		} else {
+			out = append(out, f)
+		}
+	}
+	return out
 }
 
 func runOracleAccum(c *Ctx, r *RuleRun) {
@@ -314,7 +371,20 @@ func runOracleAccum(c *Ctx, r *RuleRun) {
 				// the value coming round the loop must be computed from the accumulator itself (or from an inner accumulator
 				// that was initialised from it)
 				if !p.dependsOn(e, func(x ssa.Value) bool { return x == ssa.Value(ph) }) {
-					ok = false
+					// … or it replaces the accumulator only on an edge on which it was seen to be larger
+					// (`if v := e.Version; v > m { m = v }` with both ways going straight back to the loop head)
+					larger := false
+					for _, f0 := range edgeFacts(pred, ph.Block()) {
+						for _, cm := range []Cmp{f0, f0.Flip()} {
+							if (cm.Op == ">" || cm.Op == ">=") && cm.Y != nil && unconv(cm.Y) == ssa.Value(ph) &&
+								(unconv(cm.X) == unconv(e) || sameReRead(p, unconv(cm.X), unconv(e))) {
+								larger = true
+							}
+						}
+					}
+					if !larger {
+						ok = false
+					}
 				}
 			}
 			r.Check(ok, fn, "max accumulator", p.Pos(instrPos(ph)), "carried round the loop as max(acc, …)",
@@ -769,7 +839,7 @@ func runLiveCloseReq(c *Ctx, r *RuleRun) {
 		r.Undecided("-", "flusher", "", "DB.closeC / the goroutine started by Open not found")
 		return
 	}
-	for _, f := range la.RoleRoots["F"] {
+	for _, f := range flusherLoops(c) {
 		fn := p.FnName(f)
 		var sel *ssa.Select
 		arm := -1
@@ -801,24 +871,31 @@ func runLiveCloseReq(c *Ctx, r *RuleRun) {
 			})
 		}
 		n := 0
-		for i, pred := range hdr.Preds {
-			if !inArm(pred) {
+		// every edge that leaves the arm for a block from which the select is reached again (the select's own block, or
+		// the test of a `for !done` loop around it) must carry the remembered request: a boolean joined there is true
+		for _, join := range f.Blocks {
+			if inArm(join) || !(join == hdr || reaches(join, hdr)) {
 				continue
 			}
-			n++
-			ok := false
-			eachInstr(f, func(ins ssa.Instruction) {
-				ph, isPhi := ins.(*ssa.Phi)
-				if !isPhi || ph.Block() != hdr {
-					return
+			for i, pred := range join.Preds {
+				if !inArm(pred) {
+					continue
 				}
-				if bt, isB := ph.Type().Underlying().(*types.Basic); isB && bt.Kind() == types.Bool && isConstBool(ph.Edges[i], true) {
-					ok = true
+				n++
+				ok := false
+				for _, ins := range join.Instrs {
+					ph, isPhi := ins.(*ssa.Phi)
+					if !isPhi {
+						break
+					}
+					if bt, isB := ph.Type().Underlying().(*types.Basic); isB && bt.Kind() == types.Bool && isConstBool(ph.Edges[i], true) {
+						ok = true
+					}
 				}
-			})
-			last := pred.Instrs[len(pred.Instrs)-1]
-			r.Check(ok, fn, "close request remembered", p.Pos(instrPos(last)), "going back to the select after a close request carries closed = true",
-				"the flusher can go back to waiting after it received the close request without remembering it: once the queue is drained it parks forever and Close never returns")
+				last := pred.Instrs[len(pred.Instrs)-1]
+				r.Check(ok, fn, "close request remembered", p.Pos(instrPos(last)), "going back to the select after a close request carries closed = true",
+					"the flusher can go back to waiting after it received the close request without remembering it: once the queue is drained it parks forever and Close never returns")
+			}
 		}
 		if n == 0 {
 			r.Hold(fn, "close request remembered", p.Pos(instrPos(sel)), "the closeC arm always leaves the loop")
@@ -909,6 +986,13 @@ func runCmpOutLevel(c *Ctx, r *RuleRun) {
 						got["level list"] = o.nf(idx)
 					}
 				}
+				// the output is the newest table of its level: linked at the end the lookups start from
+				if obj := p.ExtCallee(cl); obj != nil && (funcIs(obj, "container/list", "List", "PushFront") || funcIs(obj, "container/list", "List", "InsertBefore") || funcIs(obj, "container/list", "List", "InsertAfter")) {
+					if idx, ok := levelListIndex(p, cl.Call.Args[0], levels, 0); ok {
+						got["level list"] = o.nf(idx)
+						r.Viol(p.FnName(f), "output linked as the newest table", p.Pos(instrPos(cl)), "the table just built is linked with "+obj.Name()+" instead of PushBack: within its level it no longer counts as the newest table, lookups meet older tables of the level first and the result of a read changes with the compaction")
+					}
+				}
 			})
 		}
 		judge := func(f *ssa.Function, at ssa.Instruction, got map[string]string, want string) {
@@ -954,6 +1038,38 @@ func runCmpOutLevel(c *Ctx, r *RuleRun) {
 				judge(cc.Parent(), cc, gotC, wantC)
 			}
 			continue
+		}
+		// a helper that does all four for the level it is handed (installTable(level, entries)): the obligation is
+		// discharged once per call site, so that merging the copies of two callers does not look like a lost anchor
+		if pr, isParam := unconv(call.Call.Args[2]).(*ssa.Parameter); isParam && len(got) == 4 && !p.isExported(f) && len(p.CallersOf(f)) > 1 {
+			idx := -1
+			for i, q := range f.Params {
+				if q == pr {
+					idx = i
+				}
+			}
+			plain := idx >= 0
+			for _, cs := range p.CallersOf(f) {
+				if cc, isCall := cs.(*ssa.Call); !isCall || idx >= len(cc.Call.Args) {
+					plain = false
+				}
+			}
+			if plain {
+				for _, cs := range p.CallersOf(f) {
+					cc := cs.(*ssa.Call)
+					wantC := o.nf(cc.Call.Args[idx])
+					gotC := map[string]string{}
+					for k, v := range got {
+						if v == want {
+							gotC[k] = wantC
+						} else {
+							gotC[k] = v
+						}
+					}
+					judge(cc.Parent(), cc, gotC, wantC)
+				}
+				continue
+			}
 		}
 		judge(f, call, got, want)
 	}
